@@ -11,10 +11,12 @@ ASSUMPTIONS = [
     'well-formed = derivable from the grammar of mc/gram.py under rules R1-R12 (DESIGN section 3); each rule '
     'only removes documents',
     'one representative per character class / name pool, rotated by VERIF_SEED',
+    'sample documents, documentation examples and documents of <= 2 constructs are also handed over as StringIO, list of '
+    'lines, two chunks and single characters (the samples reach the parser through open files)',
     'node text is checked the way the property says to observe it: str(node) against the source slice at '
     'node.position, plus the multiset of (span start, text) of all generator constructs',
 ]
-EXTRA = ('neigh', 'char', 'args', 'samples')
+EXTRA = ('neigh', 'char', 'args', 'samples', 'nest')
 
 
 def check_doc(acc, src, items):
@@ -53,6 +55,32 @@ def check_doc(acc, src, items):
         acc.sample(src)
 
 
+def input_forms(src):
+    import io
+    yield 'StringIO', lambda: io.StringIO(src)
+    yield 'lines', lambda: src.splitlines(True)
+    h = len(src) // 2
+    yield 'two-chunks', lambda: [src[:h], src[h:]]
+    if len(src) <= 40:
+        yield 'characters', lambda: tuple(src)
+
+
+def check_forms(acc, src):
+    """the sample documents reach the parser through open files and lists of lines: the same source, handed over in
+    the other documented ways, must come back character for character as well"""
+    for label, mk in input_forms(src):
+        soup, exc = egram.parse(mk())
+        case = {'src': src, 'items': None, 'form': label}
+        if exc is not None:
+            acc.violation('parse-input-form', case, 'parsing succeeds', egram.exc_repr(exc), len(src))
+            return
+        out = str(soup)
+        if out != src:
+            acc.violation('roundtrip-input-form', case, src, out, len(src))
+            return
+        acc.ok(hash((src, label)))
+
+
 def shards(tier):
     return layers.shards(tier, EXTRA)
 
@@ -65,6 +93,8 @@ def run_shard(shard):
     acc = Acc(make_classifier(ID, SIGNATURES))
     for src, items in layers.iter_docs(shard):
         check_doc(acc, src, items)
+        if shard['layer'] == 'samples' or (shard['layer'] == 'alpha' and shard['n'] <= 2):
+            check_forms(acc, src)
         acc.hist[shard['layer'] + (':' + shard['alpha'] + str(shard['n']) if shard['layer'] == 'alpha' else '')] += 1
     return acc
 
@@ -72,6 +102,9 @@ def run_shard(shard):
 def replay(case):
     acc = Acc()
     items = gram.tuplify(case['items']) if case.get('items') is not None else None
+    if case.get('form'):
+        check_forms(acc, case['src'])
+        return [v for v in acc.viol if v['case']['form'] == case['form']]
     check_doc(acc, case['src'], items)
     return acc.viol
 
@@ -87,7 +120,8 @@ SIGNATURES = {}
 def coverage(tier, total):
     return {
         'rule': 'every L_wf document of: %s, plus the neighbour layer (all ordered pairs of constructs x 4 separators x '
-                'every container), the character layer and tests/samples/*.tex; a document is non-trivial and distinct '
+                'every container), the character layer, the nest layer (two container kinds alternating to depth 5..40, 306 documents) '
+                'and tests/samples/*.tex + documentation examples (also as StringIO / lines / chunks); a document is distinct '
                 'by its source text' % ', '.join('%s <= %d nodes' % p for p in layers.PLAN[tier]),
         'layers': dict(total.hist),
         'representatives': gram.Names(__import__('mc.runner', fromlist=['seed']).seed()).describe(),
